@@ -77,6 +77,7 @@ use super::{Config, Dependencies};
 pub use self::glob::verif as glob_verif;
 
 pub use entry::{FileType, WalkEntry, WalkError};
+pub use regex::RegexType;
 
 /// Symlink following mode.
 #[derive(Clone, Copy, Debug, Eq, PartialEq)]
@@ -442,8 +443,6 @@ fn build_matcher_tree(
 ) -> Result<(usize, Box<dyn Matcher>), Box<dyn Error>> {
     let mut top_level_matcher = ListMatcherBuilder::new();
 
-    let mut regex_type = regex::RegexType::default();
-
     // can't use getopts for a variety or reasons:
     // order of arguments is important
     // arguments can start with + as well as -
@@ -540,7 +539,7 @@ fn build_matcher_tree(
                     return Err(From::from(format!("missing argument to {}", args[i])));
                 }
                 i += 1;
-                regex_type = regex::RegexType::from_str(args[i])?;
+                config.regex_type = regex::RegexType::from_str(args[i])?;
                 Some(TrueMatcher.into_box())
             }
             "-regex" => {
@@ -548,14 +547,14 @@ fn build_matcher_tree(
                     return Err(From::from(format!("missing argument to {}", args[i])));
                 }
                 i += 1;
-                Some(RegexMatcher::new(regex_type, args[i], false)?.into_box())
+                Some(RegexMatcher::new(config.regex_type, args[i], false)?.into_box())
             }
             "-iregex" => {
                 if i >= args.len() - 1 {
                     return Err(From::from(format!("missing argument to {}", args[i])));
                 }
                 i += 1;
-                Some(RegexMatcher::new(regex_type, args[i], true)?.into_box())
+                Some(RegexMatcher::new(config.regex_type, args[i], true)?.into_box())
             }
             "-type" => {
                 if i >= args.len() - 1 {
